@@ -237,6 +237,35 @@ def native_storage():
                 sv[kind] = "%s: %s" % (type(e).__name__, e)
         if not (sv["csv"] == sv["ods"] == sv["xlsx"]) or sv["csv"][:3] != sparse[:3]:
             failures.append(dict(key="data-storage-trailing-empty-cells", what="a table whose rows end in empty cells is read as %r" % (sv,), args={}))
+        # the table on the SECOND sheet of a workbook / document (first sheet holds something else), CIDs with Sheet 2;
+        # text cells that look like numbers ("12.0", "release 2.0") are text in every container
+        n += 1
+        tbl = [["1", "12.0"], ["x", "release 2.0"], ["3", "3.0"], ["4", "toolong.0"]]
+        other = [["other", "sheet"], ["9", "9"]]
+        p2 = {}
+        p2["ods"] = os.path.join(d, "second.ods")
+        write_ods(p2["ods"], encode_document([("first", other), ("second", tbl)]))
+        p2["xlsx"] = os.path.join(d, "second.xlsx")
+        wb = xlsxwriter.Workbook(p2["xlsx"])
+        for rows_ in (other, tbl):
+            ws = wb.add_worksheet()
+            for y, row in enumerate(rows_):
+                for x, c in enumerate(row):
+                    ws.write_string(y, x, c)
+        wb.close()
+        p2["csv"] = os.path.join(d, "second.csv")
+        import csv as _csv
+        with open(p2["csv"], "w", newline="", encoding="utf-8") as f:
+            _csv.writer(f).writerows(tbl)
+        s2 = {}
+        for kind, fmt in (("csv", "delimited"), ("ods", "ods"), ("xlsx", "excel")):
+            cid = interface.create_cid_from_string("d,format,%s\n%sf,id,,,,Integer\nf,text,,,...8\n" % (fmt, "" if fmt == "delimited" else "d,sheet,2\n"))
+            try:
+                s2[kind] = ["error" if isinstance(r, errors.DataError) else r for r in validio.rows(cid, p2[kind], on_error="yield")]
+            except Exception as e:  # noqa
+                s2[kind] = "%s: %s" % (type(e).__name__, e)
+        if not (s2["csv"] == s2["ods"] == s2["xlsx"] == [tbl[0], "error", tbl[2], "error"]):
+            failures.append(dict(key="data-storage-second-sheet", what="the table on sheet 2 (text cells ending in '.0') is read as %r" % (s2,), args={}))
         # the same paths rewritten with another table and validated again in the same process
         n += 1
         second = [["7", "g", "x"], ["x", "h", ""], ["9", "", "q"], ["10", "j", "y"]]
